@@ -251,9 +251,68 @@ class CFG:
             entry = n
         return entry
 
+    def algo(self, e):
+        """(mode, container expr, lambda) for std::all_of / any_of / none_of / for_each over a whole
+        container with a lambda that has no loops of its own"""
+        e = strip_casts(e)
+        if not isinstance(e, dict) or e.get('k') != 'call' or len(e.get('a', [])) != 3:
+            return None
+        name = e.get('f', '').split('::')[-1]
+        if name not in ('all_of', 'any_of', 'none_of', 'for_each') or not e.get('f', '').startswith('std::'):
+            return None
+
+        def unwrap(x):
+            x = strip_casts(x)
+            while isinstance(x, dict) and x.get('k') == 'ctor' and len(x.get('a', [])) == 1:
+                x = strip_casts(x['a'][0])
+            return x
+        b, en, lam = unwrap(e['a'][0]), unwrap(e['a'][1]), unwrap(e['a'][2])
+        if not (isinstance(b, dict) and b.get('k') == 'mcall' and b['f'].split('::')[-1] in ('begin', 'cbegin') and pure_lvalue(b.get('o'))):
+            return None
+        if not (isinstance(en, dict) and en.get('k') == 'mcall' and en['f'].split('::')[-1] in ('end', 'cend') and _same_expr(en.get('o'), b['o'])):
+            return None
+        if not (isinstance(lam, dict) and lam.get('k') == 'lambda' and len(lam.get('params', [])) == 1):
+            return None
+        from .facts import walk
+        if any(x.get('k') in ('for', 'while', 'do', 'forrange') for x in walk(lam.get('b'))):
+            return None
+        return name, b, lam
+
+    def expand_algo(self, spec, t, f, ctx, ln):
+        """std::all_of(X.begin(), X.end(), [](T x){ body })  ==  for (i < X.size()) { T x = X[i]; body }
+        where `return e` of the body leaves the loop towards f (all_of), t (any_of), f (none_of)"""
+        name, b, lam = spec
+        cont = b['o']
+        cls = b['f'].rsplit('::', 1)[0]
+        p = lam['params'][0]
+        ivar = {'k': 'var', 'n': '__algo_index', 'id': -abs(p['id']) - 1000000, 't': 'unsigned long'}
+        elem = {'k': 'opcall', 'op': '[]', 'f': cls + '::operator[]', 'a': [copy.deepcopy(cont), dict(ivar)], 't': p.get('t', '').replace('&', '').replace('const ', '').strip(), 'l': ln}
+        decl = {'k': 'decl', 'l': ln, 'v': [{'n': p['n'], 'id': p['id'], 't': p['t'], 'init': elem}]}
+        size = {'k': 'mcall', 'f': cls + '::size', 'o': copy.deepcopy(cont), 'a': [], 'fid': cls + '::size()const', 't': 'unsigned long', 'l': ln}
+        s = {'k': 'for', 'l': ln,
+             'i': {'k': 'decl', 'l': ln, 'v': [{'n': ivar['n'], 'id': ivar['id'], 't': 'unsigned long', 'init': {'k': 'int', 'v': 0, 't': 'int'}}]},
+             'c': {'k': 'bin', 'op': '<', 'a': [dict(ivar), size], 't': 'bool', 'l': ln},
+             'n': {'k': 'un', 'op': 'post++', 'a': [dict(ivar)], 't': 'unsigned long', 'l': ln},
+             'b': {'k': 'block', 's': [decl, lam['b']]}}
+        if name == 'all_of':
+            done, leave = t, f
+        elif name == 'any_of':
+            done, leave = f, t
+        elif name == 'none_of':
+            done, leave = t, f
+        else:
+            done, leave = t, t
+        head = self.new('loophead', None, ln, {'loop': 'for'})
+        meta = {'kind': 'for', 'line': ln, 'iv': None}
+        self.loops[head.id] = meta
+        return self.loop_for(s, head, meta, done, Ctx(None, None, ctx.handlers, ('lambda', name, leave)), ln)
+
     def branch(self, c, t, f, line=0, ctx=None):
         if isinstance(c, dict):
             k = c.get('k')
+            spec = self.algo(c) if ctx is not None else None
+            if spec is not None and spec[0] != 'for_each':
+                return self.expand_algo(spec, t, f, ctx, line)
             if k == 'bin' and c['op'] == '||':
                 return self.branch(c['a'][0], t, self.branch(c['a'][1], t, f, line, ctx), line, ctx)
             if k == 'bin' and c['op'] == '&&':
@@ -332,6 +391,16 @@ class CFG:
             return ctx.brk if ctx.brk is not None else nxt
         if k == 'continue':
             return ctx.cont if ctx.cont is not None else nxt
+        if k == 'return' and ctx.ret is not None and ctx.ret[0] == 'lambda':
+            # inside the predicate of std::all_of / any_of / none_of / for_each read as a loop
+            e = s.get('e')
+            mode, target = ctx.ret[1], ctx.ret[2]
+            again = ctx.cont
+            if mode == 'for_each' or e is None:
+                return again
+            if mode == 'all_of':
+                return self.branch(e, again, target, ln, ctx)
+            return self.branch(e, target, again, ln, ctx)      # any_of: found -> target(true); none_of: found -> target(false)
         if k == 'return' and ctx.ret is not None:
             e = s.get('e')
             r = ctx.ret
@@ -390,6 +459,9 @@ class CFG:
             t = self.build(s['a'][1], nxt, ctx)
             f = self.build(s['a'][2], nxt, ctx)
             return self.branch(s['a'][0], t, f, ln, ctx)
+        spec = self.algo(s)
+        if spec is not None and spec[0] == 'for_each':
+            return self.expand_algo(spec, nxt, nxt, ctx, ln)
         # a helper called for its effects, or whose verdict is stored in a variable
         g = self.helper(s)
         if g is not None:
